@@ -308,3 +308,5 @@ func verifParamInt(name string, def int) int {
 	}
 	return n
 }
+
+func verifHTTPAllowStall(on bool) {}
